@@ -683,6 +683,19 @@ def index_within_len(b, idx, seqkey):
                 ls, c = ("len", sl[0], None), sl[1]
         if ls is not None and ls[1] == seqkey and d <= c and (const_int(b, lo) or 0) >= 0:
             return "G3: loop variable of %s..len-%d plus %d" % (const_int(b, lo), c, d)
+    # idx = loopvar - c over lo..hi with lo >= c and hi <= len
+    o2 = b.resolve_copy(idx)
+    pl = op_place(o2)
+    if pl is not None and len(pl["p"]) == 1 and isinstance(pl["p"][0], dict) and pl["p"][0].get("f") == 0:
+        dd = b.single_def(pl["l"])
+        if dd and dd[2] == "assign" and dd[3]["rv"]["k"] == "bin" and dd[3]["rv"]["op"] in ("SubWithOverflow", "Sub"):
+            c = const_int(b, dd[3]["rv"]["r"])
+            rng = induction_range(b, dd[3]["rv"]["l"])
+            if c is not None and rng is not None:
+                lo = const_int(b, rng[0])
+                ls = len_source(b, rng[1])
+                if lo is not None and lo >= c >= 0 and ls is not None and ls[1] == seqkey:
+                    return "G3: loop variable of %d..len minus %d" % (lo, c)
     rv = b.def_rvalue(idx)
     if rv is not None and rv["k"] == "bin" and rv["op"] == "Rem":
         ls = len_source(b, rv["r"])
@@ -730,6 +743,11 @@ def discharge(site, F=None):
             l, r = ops
             cr = const_int(b, r)
             if cr is not None:
+                rng = induction_range(b, l)
+                if rng is not None:
+                    lo = const_int(b, rng[0])
+                    if lo is not None and lo >= cr:
+                        return "G3: loop variable starts at %d >= %d" % (lo, cr)
                 lb = lower_bound(b, site.bb, l)
                 if lb is not None and lb >= cr:
                     return "G4: minuend >= %d by dominating test" % cr
